@@ -173,6 +173,10 @@ func (rr *SIG) Verify(k *KEY, buf []byte) error {
 		}
 	case ECDSAP256SHA256, ECDSAP384SHA384:
 		pk := k.publicKeyECDSA()
+		// RFC 6605 section 4: r and s are of fixed length and simply concatenated.
+		if pk != nil && len(sig) != 2*((pk.Curve.Params().BitSize+7)/8) {
+			return ErrSig
+		}
 		r := new(big.Int).SetBytes(sig[:len(sig)/2])
 		s := new(big.Int).SetBytes(sig[len(sig)/2:])
 		if pk != nil {
